@@ -218,6 +218,10 @@ func (st *State) measureDecreases(m Value, old string) string {
 
 // havocLoop forgets the cells and heap locations a loop may modify.
 func (st *State) havocLoop(f *Frame, body map[*ssa.BasicBlock]bool, ms *modSet) {
+	// the visited sets of active map iterators are loop state as well
+	for rs := range st.rangeVis {
+		st.setVis(rs, st.fresh("visited", ArrSort(rs.keySort, SBool)))
+	}
 	heapAll := false
 	memSorts := map[string]Sort{}
 	var visitFn func(fn *ssa.Function, blocks map[*ssa.BasicBlock]bool, depth int)
@@ -624,7 +628,13 @@ func (st *State) step(f *Frame, ins ssa.Instruction) []*State {
 		if _, ok := x.X.Type().Underlying().(*types.Basic); ok {
 			kind = "string"
 		}
-		f.regs[x] = Value{T: x.Type(), S: SRef, Term: "range", Range: &rangeState{over: v, kind: kind}}
+		rs := &rangeState{over: v, kind: kind}
+		f.regs[x] = Value{T: x.Type(), S: SRef, Term: "range", Range: rs}
+		if mt, ok := x.X.Type().Underlying().(*types.Map); ok {
+			ks := st.eng.te.SortOf(mt.Key())
+			rs.keySort = ks
+			st.setVis(rs, fmt.Sprintf("((as const %s) false)", ArrSort(ks, SBool)))
+		}
 	case *ssa.Next:
 		f.regs[x] = st.next(x)
 	case *ssa.Select:
@@ -1212,6 +1222,14 @@ func (st *State) next(x *ssa.Next) Value {
 	k := st.freshValue("rk", mt.Key())
 	has, val := st.mapLookupH(st.heap, it.Range.over, mt, k.Term)
 	st.assume(imp(ok, has))
+	if vis, tracked := st.rangeVis[it.Range]; tracked {
+		// every key is delivered exactly once; when the iteration ends, every key was delivered
+		st.assume(imp(ok, not(app("select", vis, k.Term))))
+		qk := "tq_rk"
+		hasQ, _ := st.mapLookupH(st.heap, it.Range.over, mt, qk)
+		st.assume(imp(not(ok), fmt.Sprintf("(forall ((%s %s)) (! (=> %s (select %s %s)) :pattern ((select %s %s))))", qk, it.Range.keySort, hasQ, vis, qk, vis, qk)))
+		st.setVis(it.Range, st.define("visited", ite(ok, app("store", vis, k.Term, "true"), vis), ArrSort(it.Range.keySort, SBool)))
+	}
 	val.Term = st.define("rv", val.Term, val.S)
 	st.mapWitness = append(st.mapWitness[:len(st.mapWitness):len(st.mapWitness)], mapWit{m: it.Range.over.Term, k: k, v: val, cond: ok})
 	st.assumeWF(val)
